@@ -306,3 +306,16 @@ class noise:
     def __exit__(self, *a):
         symnp.random.hook = None
         return False
+
+
+class no_div_safety:
+    """suspend the automatic 'denominator != 0' safety obligations (used where the same divisions are
+    already discharged by another harness of the same property; stated in the harness docstring)."""
+    def __enter__(self):
+        self.old = ctx.div_safety
+        ctx.div_safety = 'assume'
+        return self
+
+    def __exit__(self, *a):
+        ctx.div_safety = self.old
+        return False
